@@ -61,6 +61,10 @@ def space_inputs(ctx, quick_extra=200000):
         yield gen.rand_token_seq(rng, rng.randrange(5, 12))
     for x in doc_inputs(ctx):
         yield x
+    for x in gen.number_literals(rng, 2000 if ctx.tier == 'quick' else 20000):
+        yield x
+        if rng.random() < 0.1:
+            yield b'[' + x + b', ' + x + b']'
 
 def doc_inputs(ctx, ndocs=None, mut_per_doc=40):
     rng = ctx.rng
@@ -178,6 +182,8 @@ def value_docs(ctx, n):
             for s in (str(n_), '-' + str(abs(n_))):
                 yield s.encode()
                 yield ('[' + s + ', ' + s + '.0, ' + s + 'e0]').encode()
+    for x in gen.number_literals(rng, 2000):
+        yield x
     for s in [b'-0', b'-0.0', b'0e0', b'[-0]', b'{"a":1,"a":2}', b'{"b":1,"a":2,"b":3}', b'{"a":{"a":1,"a":[]},"":0}']:
         yield s
 
@@ -236,7 +242,7 @@ def run_c11(ctx):
                 'plus direct checks: position within input, Eof at end of input; non-trivial = error beyond column 2 or on a later line')
     for cfg in ctx.cfgs:
         n = 600 if ctx.tier == 'quick' else 6000
-        for batch in chunks(itertools.chain(gen.enum_tokens(4), multiline_mutants(ctx, n)), 400000):
+        for batch in chunks(itertools.chain(gen.enum_tokens(4), multiline_mutants(ctx, n), gen.depth_docs(ctx.rng), gen.number_literals(ctx.rng, 300)), 400000):
             note_dist(ctx, batch)
             ctx.violations += judge_c11(ctx, cfg, batch)
             for d in batch[:3]:
@@ -314,6 +320,7 @@ def run_c09(ctx):
             ctx.violations += judge_c09(ctx, cfg, batch)
             for d in batch[:3]:
                 ctx.sample({'ops': 'pv/pi/pr x sources', 'cfg': cfg, 'input_hex': hx(d)})
+        ctx.violations += judge_c09(ctx, cfg, gen.depth_docs(ctx.rng) + gen.number_literals(ctx.rng, 300))
         streams = list(stream_inputs(ctx, 4000 if ctx.tier == 'quick' else 40000))
         ctx.violations += judge_stream_sources(ctx, cfg, streams)
 
@@ -396,13 +403,18 @@ def run_c10(ctx):
 # ================================================================== C12: streams
 def stream_inputs(ctx, n):
     rng = ctx.rng
-    seps = [b'', b'', b' ', b'\n', b'  ', b',', b':']
+    seps = [b'', b'', b' ', b'\n', b'\r', b'\t', b'\r\n', b'  ', b',', b':']
+    # every byte after every kind of bare scalar / self-delineated value (delimiter set sweep)
+    for head in (b'1', b'-2.5e3', b'true', b'false', b'null', b'"s"', b'[1]', b'{}'):
+        for b in range(256):
+            yield head + bytes([b])
+            yield head + bytes([b]) + b'7'
     for _ in range(n):
         k = rng.randrange(0, 5)
         s = rand_ws_b(rng)
         for i in range(k):
             s += gen.rand_doc(rng, depth=rng.choice([0, 0, 1, 2]))
-            s += rng.choice(seps[:5]) if rng.random() < 0.9 else rng.choice(seps)
+            s += rng.choice(seps[:8]) if rng.random() < 0.9 else rng.choice(seps)
         r = rng.random()
         if r < 0.25 and len(s) > 0:
             s = s[:rng.randrange(len(s))]
